@@ -18,7 +18,7 @@ def scenarios(quick):
             for os_ in (itertools.product(outs, repeat=n) if not quick else [tuple(outs[(i + j) % 3] for j in range(n)) for i in range(3)] + [(outs[1],) * n]):
                 for coop in (True, False):
                     fns = [[fn(d, o[0], o[1], coop) for d, o in zip(ds, os_)] + [fn(1, "R1")] * 3]
-                    out.append(scenario([h], fns, [start(1)]))
+                    out.append(scenario([h], fns, [start(1, 0, len(out) % 3 == 2)]))
     # placements
     for ds in itertools.product([0, 2, 3], repeat=2):
         for o in outs:
